@@ -1925,7 +1925,8 @@ class Process:
         # We first divide it for clock ticks and then add uptime returning
         # seconds since the epoch.
         # Also use cached value if available.
-        bt = BOOT_TIME or boot_time()
+        # (0.0 is a legitimate boot time: a clock started at the epoch)
+        bt = BOOT_TIME if BOOT_TIME is not None else boot_time()
         return (ctime / CLOCK_TICKS) + bt
 
     @wrap_exceptions
